@@ -47,6 +47,10 @@ def wForeignColl : List Op :=
    .coll a2 (.insert 2), .dropCollection d1 (.byHandle a2), .coll a1 .find]
 def wSystem : List Op :=
   [.getDb 0 "d1", .createCollection d1 "system.js", .createCollection d1 "system.js"]
+/-- `wFilter` continued: the name is written, listed, dropped, and listed again -/
+def wFilter2 : List Op :=
+  wFilter ++ [.coll a1 (.insert 1), .listCollectionNames d1 (some (.eqStr "a")),
+    .coll a1 .drop, .listCollectionNames d1 (some (.opNe "zz"))]
 
 /-- a history inside D with a drop, a rename and reuse of old handles through the shared client -/
 def wGood : List Op :=
@@ -103,8 +107,8 @@ theorem reachable_wf (σ : Nat → Nat) (w : World) (h : Reachable σ w) : WF w 
 
 example : Reachable σ3 (Catalog.run σ3 World.init wGood).1 := ⟨wGood, rfl⟩
 
-/-! ### Every exclusion class of D is needed: a witness history inside the scope of the model
-whose only departures from D are of that class, and on which model and oracle disagree -/
+/-! ### Every remaining exclusion class of D is needed: a witness history inside the scope of the
+model whose only departures from D are of that class, and on which model and oracle disagree -/
 
 theorem exclusion_vanish_last_doc_needed :
     histInScope σ3 World.init wVanishDoc = true ∧
@@ -118,35 +122,47 @@ theorem exclusion_vanish_last_index_needed :
     ¬ OutsEquiv (Catalog.run σ3 World.init wVanishIndex).2
         (Spec.Catalog.run σ3 SWorld.init wVanishIndex).2 := by decide +kernel
 
-theorem exclusion_rename_self_droptarget_needed :
-    histInScope σ3 World.init wRenameSelf = true ∧
-    histReasons σ3 World.init wRenameSelf = ["rename_self_droptarget"] ∧
-    ¬ OutsEquiv (Catalog.run σ3 World.init wRenameSelf).2
-        (Spec.Catalog.run σ3 SWorld.init wRenameSelf).2 := by decide +kernel
+/-! ### The five classes repaired in the library
 
-theorem exclusion_filter_lists_uncreated_needed :
-    histInScope σ3 World.init wFilter = true ∧
-    histReasons σ3 World.init wFilter = ["filter_lists_uncreated"] ∧
-    ¬ OutsEquiv (Catalog.run σ3 World.init wFilter).2
-        (Spec.Catalog.run σ3 SWorld.init wFilter).2 := by decide +kernel
+The witness histories of the former known findings `rename_self_droptarget`,
+`filter_lists_uncreated`, `drop_database_foreign_handle`, `drop_collection_foreign_handle` and
+`system_create_existing` are inside D now (no exclusion class is left for them), so
+`refinement_partial` covers them; the answers of the model on them are spelt out. -/
 
-theorem exclusion_drop_database_foreign_handle_needed :
-    histInScope σ3 World.init wForeignDb = true ∧
-    histReasons σ3 World.init wForeignDb = ["drop_database_foreign_handle"] ∧
-    ¬ OutsEquiv (Catalog.run σ3 World.init wForeignDb).2
-        (Spec.Catalog.run σ3 SWorld.init wForeignDb).2 := by decide +kernel
+/-- `rename_collection("a", "a", dropTarget=True)` is refused and the document is still there -/
+theorem repaired_rename_self_droptarget :
+    histInD σ3 World.init wRenameSelf = true ∧
+    (Catalog.run σ3 World.init wRenameSelf).2.drop 3 = [.err .opFail, .ids [1]] := by
+  decide +kernel
 
-theorem exclusion_drop_collection_foreign_handle_needed :
-    histInScope σ3 World.init wForeignColl = true ∧
-    histReasons σ3 World.init wForeignColl = ["drop_collection_foreign_handle"] ∧
-    ¬ OutsEquiv (Catalog.run σ3 World.init wForeignColl).2
-        (Spec.Catalog.run σ3 SWorld.init wForeignColl).2 := by decide +kernel
+/-- a name that was only read is not listed by a filtered listing; once written it is, and
+    after a drop it is not any more -/
+theorem repaired_filter_lists_uncreated :
+    histInD σ3 World.init wFilter2 = true ∧
+    (Catalog.run σ3 World.init wFilter2).2.drop 3 =
+      [.names [], .ok, .names ["a"], .ok, .names []] := by
+  decide +kernel
 
-theorem exclusion_system_create_existing_needed :
-    histInScope σ3 World.init wSystem = true ∧
-    histReasons σ3 World.init wSystem = ["system_create_existing"] ∧
-    ¬ OutsEquiv (Catalog.run σ3 World.init wSystem).2
-        (Spec.Catalog.run σ3 SWorld.init wSystem).2 := by decide +kernel
+/-- `drop_database(<handle made by client 1>)` through client 0 drops client 0's database of
+    that name -/
+theorem repaired_drop_database_foreign_handle :
+    histInD σ3 World.init (wForeignDb ++ [.coll a1 .find, .listDatabaseNames 0]) = true ∧
+    (Catalog.run σ3 World.init (wForeignDb ++ [.coll a1 .find, .listDatabaseNames 0])).2.drop 4 =
+      [.ok, .ids [], .names []] := by
+  decide +kernel
+
+/-- `d1.drop_collection(<handle of d2.a>)` drops `d1.a` and leaves `d2.a` alone -/
+theorem repaired_drop_collection_foreign_handle :
+    histInD σ3 World.init (wForeignColl ++ [.coll a2 .find]) = true ∧
+    (Catalog.run σ3 World.init (wForeignColl ++ [.coll a2 .find])).2.drop 6 =
+      [.ok, .ids [], .ids [2]] := by
+  decide +kernel
+
+/-- creating an existing `system.` collection again fails -/
+theorem repaired_system_create_existing :
+    histInD σ3 World.init wSystem = true ∧
+    (Catalog.run σ3 World.init wSystem).2 = [.ok, .ok, .err .collInvalid] := by
+  decide +kernel
 
 /-! ### Corollaries over all states / all histories -/
 
@@ -198,21 +214,22 @@ example : ∃ (w : World) (h : CollH) (ops : List Op), WF w ∧ obtainedColl w h
     .coll a1 .find, .listCollectionNames d1 none],
    reachable_wf σ3 _ ⟨_, rfl⟩, by decide +kernel, by decide +kernel, by decide +kernel, rfl⟩
 
-/-- the same from an explicit `create_collection` that succeeded -/
+/-- the same from an explicit `create_collection` of a name that does not exist (system
+    collections included): it succeeds, and the collection exists until dropped -/
 theorem exists_from_create_collection_until_drop (σ : Nat → Nat) (w : World) (h : DbH)
     (n : String) (ops : List Op) (hw : WF w) (hob : obtainedDb w h = true)
-    (hv : validName n = true) (hnew : n ∉ (w.store (σ h.client)).listColls h.db)
+    (hv : validName n = true) (hnew : created w (σ h.client) h.db n = false)
     (hD : histInD σ (Catalog.step σ w (.createCollection h n)).1 ops = true)
     (hne : ops.all (fun op => !mayRemove σ (σ h.client) h.db n op) = true) :
     (Catalog.step σ w (.createCollection h n)).2 = .ok ∧
     created (Catalog.run σ (Catalog.step σ w (.createCollection h n)).1 ops).1 (σ h.client) h.db n
       = true := by
-  have hc := Proofs.C17.create_new_succeeds σ w h n hob hv hnew
+  have hc := Proofs.C17.create_new_succeeds σ w h n hw hob hv hnew
   exact ⟨hc.1, Proofs.C17.exists_until_drop σ (σ h.client) h.db n ops _
     (Proofs.C17.wf_step σ w _ hw) hD hne hc.2⟩
 
 example : ∃ (w : World) (ops : List Op), WF w ∧ obtainedDb w d1 = true ∧
-    "a" ∉ (w.store (σ3 0)).listColls "d1" ∧
+    created w (σ3 0) "d1" "a" = false ∧
     histInD σ3 (Catalog.step σ3 w (.createCollection d1 "a")).1 ops = true ∧
     ops.all (fun op => !mayRemove σ3 (σ3 0) "d1" "a" op) = true ∧ ops.length = 3 :=
   ⟨(Catalog.run σ3 World.init [.getDb 0 "d1"]).1,
@@ -220,15 +237,23 @@ example : ∃ (w : World) (ops : List Op), WF w ∧ obtainedDb w d1 = true ∧
    reachable_wf σ3 _ ⟨_, rfl⟩, by decide +kernel, by decide +kernel, by decide +kernel,
    by decide +kernel, rfl⟩
 
-/-- **create_collection on an existing name fails** with CollectionInvalid and changes nothing -/
+/-- **create_collection on an existing name fails** with CollectionInvalid and changes nothing -
+    whether the existing collection is listed or is a (hidden) system collection -/
 theorem create_existing_fails (σ : Nat → Nat) (w : World) (h : DbH) (n : String)
     (hob : obtainedDb w h = true) (hv : validName n = true)
-    (hex : n ∈ (w.store (σ h.client)).listColls h.db) :
+    (hex : created w (σ h.client) h.db n = true) :
     Catalog.step σ w (.createCollection h n) = (w, .err .collInvalid) :=
   Proofs.C17.create_existing_fails σ w h n hob hv hex
 
 example : obtainedDb (Catalog.run σ3 World.init wGood).1 ⟨2, "d1"⟩ = true ∧ validName "b" = true ∧
-    "b" ∈ ((Catalog.run σ3 World.init wGood).1.store (σ3 2)).listColls "d1" := by decide +kernel
+    created (Catalog.run σ3 World.init wGood).1 (σ3 2) "d1" "b" = true := by decide +kernel
+
+/-- an existing system collection, which no listing shows -/
+example : obtainedDb (Catalog.run σ3 World.init (wSystem.take 2)).1 d1 = true ∧
+    validName "system.js" = true ∧
+    created (Catalog.run σ3 World.init (wSystem.take 2)).1 (σ3 0) "d1" "system.js" = true ∧
+    "system.js" ∉ ((Catalog.run σ3 World.init (wSystem.take 2)).1.store (σ3 0)).listColls "d1" := by
+  decide +kernel
 
 /-- **rename moves documents and indexes**: onto a different valid name that does not exist (or
     with `dropTarget`), the call succeeds, the new name holds exactly what the old one held, the
@@ -258,11 +283,13 @@ theorem coll_rename_is_rename_collection (σ : Nat → Nat) (w : World) (h : Col
     Catalog.step σ w (.collRename h n' dt) = Catalog.step σ w (.renameCollection h.dbh h.coll n' dt) :=
   Proofs.C17.coll_rename_eq σ w h n' dt hob
 
-/-- **rename errors**: an invalid new name (InvalidName), an absent source, or an existing
-    target without `dropTarget` (OperationFailure) - and then no lookup changes anywhere. -/
+/-- **rename errors**: an invalid new name (InvalidName), the collection's own name (with or
+    without `dropTarget`), an absent source, or an existing target without `dropTarget`
+    (OperationFailure) - and then no lookup changes anywhere: in particular renaming a
+    collection onto itself never loses its documents and indexes. -/
 theorem rename_errors (σ : Nat → Nat) (w : World) (h : DbH) (n n' : String) (dt : Bool)
     (hob : obtainedDb w h = true)
-    (hcase : validName n' = false ∨ created w (σ h.client) h.db n = false ∨
+    (hcase : validName n' = false ∨ n = n' ∨ created w (σ h.client) h.db n = false ∨
       (created w (σ h.client) h.db n' = true ∧ dt = false)) :
     (∃ e, (Catalog.step σ w (.renameCollection h n n' dt)).2 = .err e ∧
       (e = .invalidName ↔ validName n' = false)) ∧
@@ -275,8 +302,9 @@ example : validName "a..b" = false ∧
     created (Catalog.run σ3 World.init wGood).1 (σ3 0) "d1" "b" = true := by decide +kernel
 
 /-- **drop, then the handles stay usable and start from empty**: after `drop_collection(name)`,
-    `coll.drop()` or `drop_database(name)` (issued through any client of the same store;
-    `Drops`), every handle onto the dropped name obtained before still works: it
+    `drop_collection(<any Collection handle of that name>)`, `coll.drop()`, `drop_database(name)`
+    or `drop_database(<any Database handle of that name>)` (issued through any client of the
+    same store; `Drops`), every handle onto the dropped name obtained before still works: it
     finds nothing, has no index, and an insert through it succeeds and is the only document. -/
 theorem drop_then_empty_handles_usable (σ : Nat → Nat) (w : World) (op : Op) (h : CollH)
     (hob : obtainedColl w h = true) (hdrop : Drops σ w op h) :
@@ -295,6 +323,20 @@ example : ∃ (w : World) (op : Op) (h : CollH), obtainedColl w h = true ∧
   ⟨(Catalog.run σ3 World.init (wGood.take 10)).1, .dropCollection d1 (.byName "b"), ⟨2, "d1", "b"⟩,
    by decide +kernel, Or.inl ⟨d1, rfl, by decide +kernel, by decide +kernel, rfl⟩,
    by decide +kernel⟩
+
+/-- the same collection dropped by handing `d1.drop_collection` a Collection handle of *another
+    client's other database* that merely has the same name, and by handing `drop_database` of
+    client 2 the Database handle client 1 made -/
+example : ∃ (w : World) (h : CollH), obtainedColl w h = true ∧
+    created w (σ3 h.client) h.db h.coll = true ∧
+    Drops σ3 w (.dropCollection d1 (.byHandle ⟨1, "d2", "b"⟩)) h ∧
+    Drops σ3 w (.dropDatabase 2 (.byHandle ⟨1, "d1"⟩)) h :=
+  ⟨(Catalog.run σ3 World.init (wGood.take 10 ++
+      [.getDb 1 "d2", .getColl ⟨1, "d2"⟩ "b", .getDb 1 "d1"])).1, ⟨2, "d1", "b"⟩,
+   by decide +kernel, by decide +kernel,
+   Or.inr (Or.inr (Or.inr (Or.inl ⟨d1, ⟨1, "d2", "b"⟩, rfl, by decide +kernel, by decide +kernel,
+     by decide +kernel, rfl, rfl⟩))),
+   Or.inr (Or.inr (Or.inr (Or.inr ⟨2, ⟨1, "d1"⟩, rfl, by decide +kernel, by decide +kernel, rfl⟩)))⟩
 
 /-- **... until it is dropped**: after any of these drops the name does not exist and is not
     listed. -/
@@ -335,17 +377,30 @@ example : σ3 0 = σ3 2 ∧ (0 : Nat) ≠ 2 ∧
     obtainedColl (Catalog.run σ3 World.init (wGood ++ [.getColl d1 "b"])).1 ⟨2, "d1", "b"⟩ = true := by
   decide +kernel
 
-/-- **independently created clients are isolated**: whatever clients on other stores do (short
-    of handing one of their Collection handles to `drop_collection` of a client of this store,
-    class `drop_collection_foreign_handle`), this store does not change - so no listing, no
-    document and no index seen through its clients changes. -/
+/-- **independently created clients are isolated**: whatever clients on other stores do -
+    handing handles made by this store's clients to their `drop_collection` / `drop_database`
+    included - this store does not change, so no listing, no document and no index seen through
+    its clients changes. -/
 theorem independent_clients_isolated (σ : Nat → Nat) (j : Nat) (w : World) (ops : List Op)
-    (h : ops.all (fun op => !foreignCollHandle σ op && σ (opClient op) != j) = true) :
+    (h : ops.all (fun op => σ (opClient op) != j) = true) :
     (Catalog.run σ w ops).1.store j = w.store j :=
   Proofs.C17.other_stores_untouched_run σ j ops w h
 
-example : (wGood.all (fun op => !foreignCollHandle σ3 op && σ3 (opClient op) != 1)) = true := by
+example : ((wGood ++ [Op.dropCollection d1 (.byHandle ⟨1, "d1", "b"⟩),
+    Op.dropDatabase 2 (.byHandle ⟨1, "d1"⟩)]).all (fun op => σ3 (opClient op) != 1)) = true := by
   decide +kernel
+
+/-- **a filtered listing is the listing, filtered**: `list_collection_names(filter=f)` returns
+    exactly the names `list_collection_names()` returns to which `f` applies - so never a name
+    that was only read, or was dropped -/
+theorem filtered_listing_is_filter_of_listing (σ : Nat → Nat) (w : World) (h : DbH)
+    (f : NameFilter) (hob : obtainedDb w h = true) (hf : f.falsy = false) :
+    Catalog.step σ w (.listCollectionNames h (some f)) =
+      (w, .names (((w.store (σ h.client)).listColls h.db).filter f.applies)) :=
+  Proofs.C17.filtered_listing σ w h f hob hf
+
+example : obtainedDb (Catalog.run σ3 World.init wGood).1 d1 = true ∧
+    (NameFilter.opNe "a").falsy = false := by decide +kernel
 
 /-- **index_information is exact**: after every history in D it lists `_id_` followed by exactly
     the indexes the explicit-existence namespace holds for that collection - those created (by
